@@ -5,16 +5,36 @@ import PsVerif.Props.C16
 Nothing is missing: `from_to_unicode` is proved for every scalar value `r`, from four finite
 facts about the generated tables that are stated as explicit hypotheses:
 
-* `AglfnRoundTrip` — literally the statement of `PsVerif.Props.C16Slow.aglfn_roundtrip`
-  (slow: 586 look-ups in the glyph list; `decide +kernel` in `C16Slow`);
+* `AglfnRoundTrip` — the content of `PsVerif.Props.C16Slow.aglfn_roundtrip`
+  (slow: 586 look-ups in the glyph list; `decide +kernel` in `C16Slow`), stated without `match`:
+  `∀ e ∈ Aglfn.entries, ∃ n, aglfnName e.1 = some n ∧ toUnicode n false = [e.1]`;
 * `AglfnNoSep` — no AGLFN name contains `.` or `_` (cheap, `decide +kernel`, discharged below);
 * `GlyphlistNoUKey` — no glyph-list key is the packed form of `u` + 4..7 upper-case hex digits
   (cheap: one arithmetic pass over the 4,281 keys, `decide +kernel`, discharged below);
 * `CompatScalar` — every compatibility expansion is non-empty and consists of scalar values
   (cheap, `decide +kernel`, discharged below).
 
-`from_to_unicode_of_aglfn` is the same theorem with the three cheap facts discharged, so that
-`from_to_unicode_of_aglfn C16Slow.aglfn_roundtrip` is the unconditional statement.
+`from_to_unicode_of_aglfn` is the same theorem with the three cheap facts discharged.
+
+How to plug in `C16Slow.aglfn_roundtrip` (checked on a scratch copy): its `match` is compiled to an
+auxiliary matcher constant of *its* module, so passing it where a `match` elaborated in this
+module is expected makes the unifier unfold `aglfnName` on a free variable ("maximum recursion
+depth").  Hence the hypothesis is `match`-free here, and the bridge is (in a file importing both)
+
+```
+theorem aglfn_roundtrip_all : AglfnRoundTrip := by
+  intro e he
+  have := List.all_eq_true.mp PsVerif.Props.C16Slow.aglfn_roundtrip e he
+  cases hn : aglfnName e.1 with
+  | none => simp only [hn] at this; cases this
+  | some n => simp only [hn, beq_iff_eq] at this; exact ⟨n, rfl, this⟩
+
+theorem from_to_unicode_all (r : Nat) (hr : r < 0x110000) (hs : ¬ (0xD800 ≤ r ∧ r < 0xE000)) :
+    toUnicode (fromUnicode r) false = expand r :=
+  from_to_unicode_of_aglfn aglfn_roundtrip_all r hr hs
+```
+
+(`aglfnRoundTrip_of_B` below is the same bridge for the `match` form elaborated in this module.)
 -/
 namespace PsVerif.Proofs.NamesRoundTrip
 open PsVerif.Model.Names PsVerif.Props.C16 PsVerif.Generated
@@ -290,12 +310,24 @@ theorem component_uName (hno : GlyphlistNoUKey) (n : Nat) (h : n < 0x110000)
 
 /-! ## 4. characters with an AGLFN name -/
 
-/-- finite fact (slow): exactly the statement of `C16Slow.aglfn_roundtrip` -/
+/-- finite fact (slow): the content of `C16Slow.aglfn_roundtrip`, stated without `match` so that
+it does not depend on which auxiliary matcher constant the elaborator generated -/
 def AglfnRoundTrip : Prop :=
+  ∀ e ∈ Aglfn.entries, ∃ n, aglfnName e.1 = some n ∧ toUnicode n false = [e.1]
+
+/-- the statement of `C16Slow.aglfn_roundtrip`, literally (as elaborated in *this* module) -/
+def AglfnRoundTripB : Prop :=
   (Aglfn.entries.all fun e =>
     match aglfnName e.1 with
     | some n => toUnicode n false == [e.1]
     | none => false) = true
+
+theorem aglfnRoundTrip_of_B (h : AglfnRoundTripB) : AglfnRoundTrip := by
+  intro e he
+  have := List.all_eq_true.mp h e he
+  cases hn : aglfnName e.1 with
+  | none => simp only [hn] at this; cases this
+  | some n => simp only [hn, beq_iff_eq] at this; exact ⟨n, rfl, this⟩
 
 /-- finite fact (cheap): no AGLFN name contains a period or an underscore -/
 def AglfnNoSep : Prop :=
@@ -326,10 +358,11 @@ theorem toUnicode_noSep (name : List Nat) (hn : noSep name) :
 
 theorem component_aglfn (hrt : AglfnRoundTrip) (hns : AglfnNoSep) {c : Nat} {n : List Nat}
     (h : aglfnName c = some n) : component false n = [c] := by
-  have := List.all_eq_true.mp hrt (c, n) (aglfnName_mem h)
-  simp only [h, beq_iff_eq] at this
+  obtain ⟨n', hn', ht⟩ := hrt (c, n) (aglfnName_mem h)
+  simp only [h, Option.some.injEq] at hn'
+  subst hn'
   rw [← toUnicode_noSep n (aglfn_noSep hns h)]
-  exact this
+  exact ht
 
 /-! ## 5. splitting a joined name -/
 
@@ -476,7 +509,9 @@ theorem toUnicode_join (hrt : AglfnRoundTrip) (hns : AglfnNoSep) (hno : Glyphlis
 /-- **C16, round trip**: for every Unicode scalar value `r`, the name `FromUnicode` produces maps
 back to `expand r` (the character itself, or its compatibility expansion).  The four hypotheses
 are finite facts about the generated tables, each one `decide +kernel` away:
-`h_aglfn_roundtrip` is `C16Slow.aglfn_roundtrip` (slow), the other three are discharged below. -/
+`h_aglfn_roundtrip` follows from `C16Slow.aglfn_roundtrip` (slow; see the bridge in the header),
+the other three are discharged below (`aglfn_noSep_fact`, `glyphlist_noUKey_fact`,
+`compat_scalar_fact`). -/
 theorem from_to_unicode
     (h_aglfn_roundtrip : AglfnRoundTrip)
     (h_aglfn_noSep : AglfnNoSep)
@@ -504,9 +539,14 @@ example : isUKey (pack [117, 48, 48, 52, 49]) = true ∧ isUKey (pack [117, 49, 
 
 end Cheap
 
-/-- the round trip with only the slow fact left as a hypothesis:
-`from_to_unicode_of_aglfn PsVerif.Props.C16Slow.aglfn_roundtrip` is the unconditional theorem -/
-theorem from_to_unicode_of_aglfn
+/-- the round trip with only the slow fact left as a hypothesis -/
+theorem from_to_unicode_of_aglfn (h_aglfn_roundtrip : AglfnRoundTrip)
+    (r : Nat) (hr : r < 0x110000) (hs : ¬ (0xD800 ≤ r ∧ r < 0xE000)) :
+    toUnicode (fromUnicode r) false = expand r :=
+  from_to_unicode h_aglfn_roundtrip aglfn_noSep_fact glyphlist_noUKey_fact compat_scalar_fact r hr hs
+
+/-- the same, with the slow fact in the Boolean `match` form of `C16Slow.aglfn_roundtrip` -/
+theorem from_to_unicode_of_aglfnB
     (h_aglfn_roundtrip :
       (Aglfn.entries.all fun e =>
         match aglfnName e.1 with
@@ -514,7 +554,7 @@ theorem from_to_unicode_of_aglfn
         | none => false) = true)
     (r : Nat) (hr : r < 0x110000) (hs : ¬ (0xD800 ≤ r ∧ r < 0xE000)) :
     toUnicode (fromUnicode r) false = expand r :=
-  from_to_unicode h_aglfn_roundtrip aglfn_noSep_fact glyphlist_noUKey_fact compat_scalar_fact r hr hs
+  from_to_unicode_of_aglfn (aglfnRoundTrip_of_B h_aglfn_roundtrip) r hr hs
 
 /-- names without an AGLFN entry: the `uXXXX` form alone round-trips, for every scalar value,
 without any slow hypothesis -/
@@ -525,6 +565,7 @@ theorem uName_roundtrip (n : Nat) (h : n < 0x110000) (hs : ¬ (0xD800 ≤ n ∧ 
 
 #print axioms from_to_unicode
 #print axioms from_to_unicode_of_aglfn
+#print axioms from_to_unicode_of_aglfnB
 #print axioms uName_roundtrip
 
 end PsVerif.Proofs.NamesRoundTrip
